@@ -80,6 +80,13 @@ func (f *frame) enterLoop(li *loopInfo, b *ssa.BasicBlock, pc *Term, st State) (
 				continue
 			}
 			f.check("invariant-entry", f.oblName(fmt.Sprintf("loop#%d/invariant%s/entry", li.ord, clauseTag(inv, i))), pc, g, b.Instrs[0].Pos(), inv)
+			if f.flagOn("assume-entry", false) {
+				// the invariant has just been checked for the entry state: it may
+				// be used as a fact about that state afterwards (e.g. to relate a
+				// map's domain at the start of a range to the function's entry).
+				// Off by default: quantified facts cost instantiations.
+				c.addHyp(Implies(pc, g))
+			}
 		}
 	} else if !f.inlined {
 		f.warnf("loop %d has no invariant (true assumed)", li.ord)
